@@ -29,6 +29,16 @@ Theorem C14_DECRC_pops : forall wid is_comb nfc (a : astate) sp rest, a_sp a = s
   (forall m, amode a' m = ((sp_origin sp && (m =? DECOM)) || (sp_wrap sp && (m =? DECAWM)) || amode a m)) /\
   a_grid a' = a_grid a /\ a_margins a' = a_margins a /\ a_tabs a' = a_tabs a /\ a_cols a' = a_cols a /\ a_lines a' = a_lines a.
 Proof. exact c14_restore_pop. Qed.
+(* DECSC immediately followed by DECRC changes nothing — except that a pending-wrap cursor returns in the last column and a
+   cursor outside the scrolling region returns inside it (restore clamps into the region) *)
+Theorem C14_save_then_restore : forall wid is_comb nfc (a : astate),
+  let a' := astep wid is_comb nfc (astep wid is_comb nfc a OSave) ORestore in
+  a_sp a' = a_sp a /\ a_cs a' = a_cs a /\ a_g0 a' = a_g0 a /\ a_g1 a' = a_g1 a /\ aattr a' = aattr a /\
+  cu_hidden (a_cur a') = cu_hidden (a_cur a) /\ ax a' = N.min (ax a) (a_cols a - 1) /\
+  ay a' = (match a_margins a with Some (t, b) => N.min (N.max (ay a) t) b | None => N.min (N.max (ay a) 0) (a_lines a - 1) end) /\
+  (forall m, amode a' m = amode a m) /\
+  a_grid a' = a_grid a /\ a_margins a' = a_margins a /\ a_tabs a' = a_tabs a /\ a_cols a' = a_cols a /\ a_lines a' = a_lines a.
+Proof. exact c14_round_trip. Qed.
 Theorem C14_DECRC_on_empty_stack : forall wid is_comb nfc (a : astate), a_sp a = [] ->
   astep wid is_comb nfc a ORestore = a_cup (a_with_mode a (nrem DECOM (a_mode a))) None None.
 Proof. exact c14_restore_empty. Qed.
@@ -46,3 +56,4 @@ Print Assumptions C14_code_refines_spec.
 Print Assumptions C14_DECRC_pops.
 Print Assumptions C14_only_DECSC_DECRC_touch_the_stack.
 Print Assumptions C14_LIFO.
+Print Assumptions C14_save_then_restore.
